@@ -37,7 +37,19 @@ Definition builds_safe (s : state) : bool :=
   guarded build_store_dir build_store_dir s &&          (* store touched only under the store lock *)
   guarded build_store_dir D_BUILD s &&                  (* ... and under the .build lock *)
   guarded D_OUT D_BUILD s &&                            (* outputs written only under the .build lock *)
-  reads_complete build_store_dir store_ok true s.       (* manifest / blob reads never torn *)
+  reads_complete build_store_dir store_ok true s &&     (* manifest / blob reads never torn *)
+  completes 2 s.                                        (* neither build fails *)
+
+(* ---- 2b. the store used WITHOUT its lock ("Without a lock the store can still be used; writes
+   stay atomic and readers degrade to misses"): two store sections with every lock step removed *)
+Definition store_section (pid : N) (m1 m2 : list N) : list instr :=
+  store_open build_store_blocking build_store_dir ++ [Read (build_store_dir, 1)] ++
+  store_write_blob pid build_store_dir [7] [8] ++
+  store_save pid build_store_dir m1 m2 ++ [Unlock build_store_dir; Read (build_store_dir, 0)].
+Definition nolock_system : state :=
+  (fs0 [] [], [P 1 (strip_locks (store_section 1 [10] [11])); P 2 (strip_locks (store_section 2 [20] [21]))]).
+Definition nolock_safe (s : state) : bool :=
+  reads_complete build_store_dir store_ok true s && completes 3 s.
 
 (* ---- 3. a build next to two language servers *)
 Definition ls_prog (pid : N) (m1 m2 : list N) : list instr :=
@@ -62,7 +74,7 @@ Definition F2 : list N := [3; 4].
 Definition std_user (pid : N) : list instr :=
   std_expand pid [1] [2] [3] [4] ++ [Read (D_STD, 1); Read (D_STD, 2)].
 Definition std_ok (p : path) : list (list N) := if snd p =? 1 then [F1] else [F2].
-Definition std_safe : state -> bool := reads_complete D_STD std_ok false.
+Definition std_safe (s : state) : bool := reads_complete D_STD std_ok false s && completes 2 s.
 Definition std_system2 : state := (fs0 [] [], [P 1 (std_user 1); P 2 (std_user 2)]).
 Definition std_system3 : state := (fs0 [] [], [P 1 (std_user 1); P 2 (std_user 2); P 3 (std_user 3)]).
 (* an interrupted earlier expansion left a partial scratch directory behind *)
@@ -85,4 +97,4 @@ Definition T1 : list N := [5; 6].
 Definition dep_system : state :=
   (fs0 [] [], [P 1 (dep_checkout 1 [5] [6]); P 2 (dep_checkout 2 [5] [6]); P 3 (dep_checkout 3 [5] [6])]).
 Definition dep_safe (s : state) : bool :=
-  reads_complete D_CO (fun _ => [T1]) false s && guarded_writes D_CO D_DEPS s.
+  reads_complete D_CO (fun _ => [T1]) false s && guarded_writes D_CO D_DEPS s && completes 1 s.
